@@ -543,17 +543,30 @@ func c01validate(res *vlib.Result, rec *krecord, recipe string, faults bool) {
 						k = -1
 					}
 				}
-				// expected fired events after index k
+				// expected fired events after index k. States written before the informer's own list
+				// (phases pre-start and between-AddMonitor-and-StartMonitor) are observable only through
+				// the last of them: the informer lists once, it never sees the intermediate ones.
+				listIdx := -1
+				for j := range h {
+					if ph := rec.PhaseOf[h[j].Gen]; ph == "pre-start" || ph == "between-AddMonitor-and-StartMonitor" {
+						listIdx = j
+					}
+				}
+				var walk []int
+				for j := k + 1; j < len(h); j++ {
+					if j < listIdx {
+						continue
+					}
+					walk = append(walk, j)
+				}
 				var want []c01ev
 				cached, has := "", false
 				if k >= 0 && present[k] {
 					cached, has = proj[k], true
 				}
-				for j := k + 1; j < len(h); j++ {
-					prevPresent := j > 0 && present[j-1]
-					if j == 0 {
-						prevPresent = false
-					}
+				prev := k
+				for _, j := range walk {
+					prevPresent := prev >= 0 && present[prev]
 					switch {
 					case present[j] && !prevPresent:
 						if b.Listed("Added") && (!has || cached != proj[j]) {
@@ -567,10 +580,11 @@ func c01validate(res *vlib.Result, rec *krecord, recipe string, faults bool) {
 						cached, has = proj[j], true
 					case !present[j] && prevPresent:
 						if b.Listed("Deleted") {
-							want = append(want, c01ev{"Deleted", h[j-1].Gen})
+							want = append(want, c01ev{"Deleted", h[prev].Gen})
 						}
 						cached, has = "", false
 					}
+					prev = j
 				}
 				res.Count("object_traces_checked", 1)
 				if !c01suffix(got, want, h) {
@@ -590,8 +604,10 @@ func c01validate(res *vlib.Result, rec *krecord, recipe string, faults bool) {
 						// the object's namespace was relabelled or deleted (and possibly re-created) during the case
 						cls = "lost-or-stale/ns-scope-change"
 					}
-					if miss.Type == "Deleted" && phase == "between-AddMonitor-and-StartMonitor" && inV {
-						// the view itself contains an object that was already deleted (see C02's ghost finding)
+					if (miss.Type == "Deleted" && phase == "between-AddMonitor-and-StartMonitor" && inV) || (inV && c02leftScope(rec, b, key, vGen)) {
+						// the view itself contains an object that had already left the binding's scope when the
+						// informer listed (see C02's ghost finding): no Deleted ever follows, and a later
+						// re-creation finds the ghost in the cache (reported as Modified, or not at all)
 						cls = "stale/ghost-deleted-between-AddMonitor-list-and-informer-start"
 					}
 					res.Violate(cls, "binding %s object %s: Synchronization view shows %s, delivered events %v, expected (from the ground truth, as a suffix) %v; first missing: %s (written in phase %q)\n%s", hb, key, c01viewDesc(inV, vGen), got, want, miss, phase, desc())
@@ -709,6 +725,10 @@ func c01group(res *vlib.Result, rec *krecord, kh khook, b *kbind, lastGroup *kex
 	want := sortedIDs(rec.Final[kh.Rel+"/"+b.Name])
 	res.Count("group_final_snapshots_checked", 1)
 	if strings.Join(got, ",") != strings.Join(want, ",") {
+		if c02onlyGhosts(rec, b, got, want) {
+			res.Violate("stale/ghost-deleted-between-AddMonitor-list-and-informer-start", "binding %s/%s (group %s): the last Group execution #%d shows %v while the cluster holds %v: the surplus left the binding's scope between AddMonitor's list and the informer's own list\n%s", kh.Rel, b.Name, b.Group, lastGroup.Idx, got, want, rec.describe())
+			return
+		}
 		res.Violate("group/last-execution-does-not-reflect-last-change/"+recipe, "binding %s/%s (group %s): the last change (%s, generation %d) is of a listed type, but the last Group execution #%d shows %v while the cluster holds %v\n%s", kh.Rel, b.Name, b.Group, lastType, lastGen, lastGroup.Idx, got, want, rec.describe())
 	}
 }
